@@ -20,6 +20,10 @@ Check (C15_spec_most_recent : forall c past a ch s e,
   exists k p1 p2, key_of c a = Some k /\ past ++ [a] = p1 ++ (s, e) :: p2 /\
                   candidate c s k (jts (snd a)) (s, e) = true /\
                   forall a', In a' p2 -> candidate c s k (jts (snd a)) a' = false).
+Check (C15_output_fields : forall c past a ch s e f v,
+  NoDup (sources c) -> spec_out c past a = Some ch -> In (s, e) ch ->
+  NoDup (map fst (jfields e)) -> In (f, v) (jfields e) ->
+  im_lookup (Some s, f) (snd (correlated c ch)) = Some v).
 Check (C15_gc_exact_on_sorted : forall cutoff l,
   StronglySorted (fun x y => jts x <= jts y) l ->
   skipn (partition_point (fun e => jts e <? cutoff) l) l = filter (fun e => negb (jts e <? cutoff)) l).
@@ -37,6 +41,7 @@ Print Assumptions C15_inorder.
 Print Assumptions C15_join_correlates.
 Print Assumptions C15_spec_produces_iff.
 Print Assumptions C15_spec_most_recent.
+Print Assumptions C15_output_fields.
 Print Assumptions C15_gc_exact_on_sorted.
 Print Assumptions C15_ooo_refuted_gc_ahead.
 Print Assumptions C15_ooo_refuted_binary_search.
